@@ -10,7 +10,7 @@
 //! `walk_stack` (the `CfiStackWalker` callbacks) of amd64, x86 and arm over a rule menu that includes
 //! values wider than a 32-bit register.
 use breakpad_symbols::{FrameWalker, SimpleModule, SymbolFile};
-use minidump::format::{CONTEXT_AMD64, CONTEXT_ARM, CONTEXT_X86};
+use minidump::format::{CONTEXT_AMD64, CONTEXT_ARM, CONTEXT_ARM64, CONTEXT_X86};
 use minidump::system_info::{Cpu, Os};
 use minidump::{CpuContext, MinidumpContext, MinidumpContextValidity, MinidumpMemory, MinidumpModule, MinidumpModuleList, MinidumpRawContext, UnifiedMemory};
 use minidump_unwind::{string_symbol_supplier, walk_stack, CallStack, FrameTrust, SystemInfo, Symbolizer};
@@ -437,10 +437,16 @@ fn lines_count(rec: &CfiRecord, rel: u64) -> usize {
 const MOD: u64 = 0x4000_0000;
 const STACK: u64 = 0x6000_0000;
 
-/// One CPU flavour of the walk space. `regs` = the three registers that get a rule: two the ABI table forwards
-/// implicitly (callee-saved) and one it does not (caller-saved); `helper` is read by a rule and `fp` by a CFA rule.
+/// One CPU flavour of the walk space. `regs` = the three registers that get a rule: `regs[0]` and `regs[1]` are
+/// forwarded implicitly by the ABI table (callee-saved), `regs[2]` is not; each is given as the list of its
+/// documented label spellings, canonical name first (minidump/src/context.rs: ARM r11 = fp, r14 = lr; ARM64
+/// x29 = fp, x30 = lr — the numeric spellings are the ones Breakpad's dump_syms writes). `helper` is read by a
+/// rule and `fp` by a CFA rule.
 struct WalkCpu {
+    /// tag of the space (and of its counters / outcome classes)
     name: &'static str,
+    /// CPU: selects the raw context type; words the signatures
+    kind: &'static str,
     arch: &'static str,
     /// register width in bytes (= width of one stack word)
     w: u64,
@@ -449,7 +455,9 @@ struct WalkCpu {
     ip: &'static str,
     sp: &'static str,
     fp: &'static str,
-    regs: [&'static str; 3],
+    regs: [&'static [&'static str]; 3],
+    /// rule menu of each of the three registers (entry 0 = no rule)
+    rules: &'static [Option<&'static str>],
     helper: &'static str,
     /// registers the unwinder forwards implicitly (its ABI table): only used to word the signature
     callee_saved: &'static [&'static str],
@@ -459,21 +467,34 @@ struct WalkCpu {
 }
 const WALK_CPUS: &[WalkCpu] = &[
     WalkCpu {
-        name: "amd64", arch: "x86_64", w: 8, sigil: "$", ip: "rip", sp: "rsp", fp: "rbp", regs: ["rbx", "r12", "rax"], helper: "r15",
+        name: "amd64", kind: "amd64", arch: "x86_64", w: 8, sigil: "$", ip: "rip", sp: "rsp", fp: "rbp", regs: [&["rbx"], &["r12"], &["rax"]], rules: WALK_RULES, helper: "r15",
         callee_saved: &["rbx", "rbp", "r12", "r13", "r14", "r15"], ip_adjust: 1,
         callee: &[("rip", MOD + 0x1010), ("rsp", STACK), ("rbp", STACK + 7 * 8), ("rbx", 0xb0b), ("r12", 0x1212), ("r15", 0x1515), ("rax", 0xaaaa)],
     },
     WalkCpu {
-        name: "x86", arch: "x86", w: 4, sigil: "$", ip: "eip", sp: "esp", fp: "ebp", regs: ["ebx", "esi", "ecx"], helper: "edi",
+        name: "x86", kind: "x86", arch: "x86", w: 4, sigil: "$", ip: "eip", sp: "esp", fp: "ebp", regs: [&["ebx"], &["esi"], &["ecx"]], rules: WALK_RULES, helper: "edi",
         callee_saved: &["ebp", "ebx", "edi", "esi"], ip_adjust: 1,
         callee: &[("eip", MOD + 0x1010), ("esp", STACK), ("ebp", STACK + 7 * 4), ("ebx", 0xb0b), ("esi", 0x5151), ("edi", 0xd1d1), ("ecx", 0xcccc)],
     },
     WalkCpu {
-        name: "arm", arch: "arm", w: 4, sigil: "", ip: "pc", sp: "sp", fp: "fp", regs: ["r4", "r5", "r1"], helper: "r6",
-        callee_saved: &["r4", "r5", "r6", "r7", "r8", "r9", "r10", "fp"], ip_adjust: 2,
+        name: "arm", kind: "arm", arch: "arm", w: 4, sigil: "", ip: "pc", sp: "sp", fp: "fp", regs: [&["r4"], &["r5"], &["r1"]], rules: WALK_RULES, helper: "r6",
+        callee_saved: ARM_CALLEE_SAVED, ip_adjust: 2,
         callee: &[("pc", MOD + 0x1010), ("sp", STACK), ("fp", STACK + 7 * 4), ("r4", 0x4040), ("r5", 0x5050), ("r6", 0x6060), ("r1", 0x1111)],
     },
+    // label spellings: the frame pointer (callee-saved) and the link register (not forwarded) under both of their
+    // names, next to a callee-saved register that has one name only
+    WalkCpu {
+        name: "arm-alias", kind: "arm", arch: "arm", w: 4, sigil: "", ip: "pc", sp: "sp", fp: "fp", regs: [&["fp", "r11"], &["r4"], &["lr", "r14"]], rules: WALK_RULES_ALIAS_32, helper: "r6",
+        callee_saved: ARM_CALLEE_SAVED, ip_adjust: 2,
+        callee: &[("pc", MOD + 0x1010), ("sp", STACK), ("fp", STACK + 7 * 4), ("r4", 0x4040), ("r6", 0x6060), ("lr", MOD + 0x5510)],
+    },
+    WalkCpu {
+        name: "arm64", kind: "arm64", arch: "arm64", w: 8, sigil: "", ip: "pc", sp: "sp", fp: "fp", regs: [&["fp", "x29"], &["x19"], &["lr", "x30"]], rules: WALK_RULES_ALIAS_64, helper: "x20",
+        callee_saved: &["x19", "x20", "x21", "x22", "x23", "x24", "x25", "x26", "x27", "x28", "fp"], ip_adjust: 4,
+        callee: &[("pc", MOD + 0x1010), ("sp", STACK), ("fp", STACK + 7 * 8), ("x19", 0x1919), ("x20", 0x2020), ("lr", MOD + 0x5510)],
+    },
 ];
+const ARM_CALLEE_SAVED: &[&str] = &["r4", "r5", "r6", "r7", "r8", "r9", "r10", "fp"];
 
 /// rule menu of one register; `{W2}` = two stack words, `{S}` = sigil, `{H}` = helper register.
 /// The last five are about the register width: 64-bit wrapping results that do not fit in 32 bits ("negative"
@@ -491,6 +512,13 @@ const WALK_RULES: &[Option<&str>] = &[
     Some("4294967295"),
     Some(".cfa 4294967296 + 4294967296 -"),
 ];
+/// rule menus of the label-spelling spaces (every rule is written under each spelling of its register): saved on
+/// the stack, two failing rules, computed from another register, and values around the 32-bit register width.
+/// ARM64 strips pointer-authentication bits from fp/lr/pc (outside this property): its menu stays below 2^47.
+const WALK_RULES_ALIAS_32: &[Option<&str>] =
+    &[None, Some(".cfa {W2} - ^"), Some(".undef"), Some("{S}{H} 1 +"), Some("4 .cfa -"), Some("4294967296"), Some("4294967295")];
+const WALK_RULES_ALIAS_64: &[Option<&str>] =
+    &[None, Some(".cfa {W2} - ^"), Some(".undef"), Some("{S}{H} 1 +"), Some("{S}nope"), Some("4294967296"), Some("4294967295")];
 /// `.cfa` rules (both fit in every register width): four words above sp, one word above fp
 const WALK_CFA: &[&str] = &["{S}{SP} {W4} +", "{S}{FP} {W} +"];
 const WALK_RA: &[&str] = &[".cfa {W} - ^", ".undef"];
@@ -500,9 +528,9 @@ const WALK_VALID: usize = 4;
 fn walk_valid(cpu: &WalkCpu, vi: usize) -> Option<Vec<&'static str>> {
     match vi {
         0 => None,
-        1 => Some(vec![cpu.ip, cpu.sp, cpu.regs[0], cpu.helper]),
+        1 => Some(vec![cpu.ip, cpu.sp, cpu.regs[0][0], cpu.helper]),
         2 => Some(vec![cpu.ip, cpu.sp]),
-        _ => Some(vec![cpu.ip, cpu.sp, cpu.fp, cpu.regs[2], cpu.helper]),
+        _ => Some(vec![cpu.ip, cpu.sp, cpu.fp, cpu.regs[2][0], cpu.helper]),
     }
 }
 fn walk_subst(cpu: &WalkCpu, t: &str) -> String {
@@ -570,24 +598,28 @@ fn walk_context(cpu: &WalkCpu) -> MinidumpRawContext {
             MinidumpRawContext::$variant(c)
         }};
     }
-    match cpu.name {
+    match cpu.kind {
         "amd64" => fill!(CONTEXT_AMD64, Amd64, u64),
         "x86" => fill!(CONTEXT_X86, X86, u32),
         "arm" => fill!(CONTEXT_ARM, Arm, u32),
+        "arm64" => fill!(CONTEXT_ARM64, Arm64, u64),
         _ => unreachable!(),
     }
 }
 
 fn walk_space(cpu: &'static WalkCpu) -> Space {
-    let nr = WALK_RULES.len() as u64;
-    let radices = [nr, nr, nr, WALK_CFA.len() as u64, WALK_RA.len() as u64, WALK_VALID as u64];
+    // one register: no rule, or (rule of the menu, spelling of the label)
+    let nr = |i: usize| 1 + (cpu.rules.len() as u64 - 1) * cpu.regs[i].len() as u64;
+    let radices = [nr(0), nr(1), nr(2), WALK_CFA.len() as u64, WALK_RA.len() as u64, WALK_VALID as u64];
     let n = product(&radices);
     let rules_of = move |idx: u64| -> (String, usize) {
         let d = unrank(idx, &radices);
         let mut r = format!(".cfa: {} .ra: {}", walk_subst(cpu, WALK_CFA[d[3] as usize]), walk_subst(cpu, WALK_RA[d[4] as usize]));
-        for (i, reg) in cpu.regs.iter().enumerate() {
-            if let Some(e) = WALK_RULES[d[i] as usize] {
-                r += &format!(" {}{reg}: {}", cpu.sigil, walk_subst(cpu, e));
+        for (i, labels) in cpu.regs.iter().enumerate() {
+            if d[i] > 0 {
+                let (rule, label) = (1 + (d[i] - 1) / labels.len() as u64, labels[((d[i] - 1) % labels.len() as u64) as usize]);
+                let e = cpu.rules[rule as usize].expect("harness: only entry 0 of a rule menu is 'no rule'");
+                r += &format!(" {}{label}: {}", cpu.sigil, walk_subst(cpu, e));
             }
         }
         (r, d[5] as usize)
@@ -607,10 +639,11 @@ fn walk_space(cpu: &'static WalkCpu) -> Space {
         let bytes: Vec<u8> = (0..WALK_WORDS).flat_map(|i| walk_word(cpu, i).to_le_bytes()[..cpu.w as usize].to_vec()).collect();
         let mem = MinidumpMemory { desc: Default::default(), base_address: STACK, size: bytes.len() as u64, bytes: &bytes, endian: scroll::LE };
         let ml = MinidumpModuleList::from_modules(vec![MinidumpModule::new(MOD, 0x10000, "m")]);
-        let cpu_kind = match cpu.name {
+        let cpu_kind = match cpu.kind {
             "amd64" => Cpu::X86_64,
             "x86" => Cpu::X86,
-            _ => Cpu::Arm,
+            "arm" => Cpu::Arm,
+            _ => Cpu::Arm64,
         };
         let si = SystemInfo { os: Os::Linux, os_version: None, os_build: None, cpu: cpu_kind, cpu_info: None, cpu_microcode_version: None, cpu_count: 1 };
         let mut syms = HashMap::new();
@@ -629,30 +662,50 @@ fn walk_space(cpu: &'static WalkCpu) -> Space {
             l.panic_violation(&p, detail());
             return;
         }
-        let w = format!("{cname}.walk_stack.cfi");
+        let w = format!("{}.walk_stack.cfi", cpu.kind);
         let f1 = cs.frames.get(1).filter(|f| f.trust == FrameTrust::CallFrameInfo);
         match &exp {
             CfiExpect::Some { cfa, ra, regs } => {
                 let max = walk_reg_max(cpu);
                 assert!(*cfa <= max && *ra <= max, "harness: the cfa/ra rules of the walk menu must fit the register");
-                // projection of the 64-bit reference on the register width
-                let want: Vec<(&String, Result<u64, Unknown>)> = regs
+                // projection of the 64-bit reference on the register width; the reference knows a rule by the
+                // spelling of its label, the caller frame is asked for the register by its canonical name
+                struct Want<'x> {
+                    reg: &'static str,
+                    label: &'x str,
+                    val: Result<u64, Unknown>,
+                }
+                let want: Vec<Want> = regs
                     .iter()
-                    .map(|(n, o)| {
-                        (n, match o {
+                    .map(|(n, o)| Want {
+                        reg: cpu.regs.iter().find(|labels| labels.contains(&n.as_str())).expect("harness: every label of the walk menu is a spelling of a menu register")[0],
+                        label: n.as_str(),
+                        val: match o {
                             RegOut::Set(v) if *v <= max => Ok(*v),
                             RegOut::Set(v) => Err(Unknown::TooWide(*v)),
                             RegOut::Cleared => Err(Unknown::RuleFails),
                             RegOut::Open => panic!("harness: walk menu must have a definite reference"),
-                        })
+                        },
                     })
                     .collect();
-                let wide = want.iter().filter(|x| matches!(x.1, Err(Unknown::TooWide(_)))).count() as u64;
+                let wide = want.iter().filter(|x| matches!(x.val, Err(Unknown::TooWide(_)))).count() as u64;
                 l.outcome(&format!("{cname} walk_stack: reference Some"));
                 if wide > 0 {
                     l.count(&format!("walk_register_rules_with_value_wider_than_register[{cname}]"), wide);
                 }
-                l.distinct(&("walk", cname, vi, cfa, ra, want.iter().map(|x| (x.0.clone(), x.1.ok())).collect::<Vec<_>>()));
+                for x in want.iter().filter(|x| x.label != x.reg) {
+                    let class = match x.val {
+                        Ok(_) => "set",
+                        Err(Unknown::RuleFails) => "rule-fails",
+                        Err(Unknown::TooWide(_)) => "value-wider-than-register",
+                    };
+                    l.count(&format!("walk_rules_under_an_alias_label[{cname}][{class}]"), 1);
+                    if cpu.kind == "arm64" {
+                        // pointer-authentication stripping of fp / lr is not part of this property
+                        assert!(x.val.map_or(true, |v| v < 1 << 47), "harness: arm64 fp/lr values of the walk menu must stay below 2^47");
+                    }
+                }
+                l.distinct(&("walk", cname, vi, cfa, ra, want.iter().map(|x| (x.label.to_string(), x.val.ok())).collect::<Vec<_>>()));
                 let Some(f) = f1 else {
                     l.violation(format!("{w}:no-cfi-frame"), "the caller frame was not produced by CFI although the rules evaluate", detail());
                     return;
@@ -665,25 +718,39 @@ fn walk_space(cpu: &'static WalkCpu) -> Space {
                         detail(),
                     );
                 }
-                for (n, want) in &want {
-                    let got = get(n);
+                for Want { reg, label, val: want } in &want {
+                    let got = get(reg);
                     if got == want.ok() {
                         continue;
                     }
-                    let callee_val = cpu.callee.iter().find(|r| r.0 == n.as_str()).map(|r| r.1);
-                    let valid_in_callee = valid_names.as_ref().map_or(true, |v| v.contains(&n.as_str()));
-                    let forwarded = cpu.callee_saved.contains(&n.as_str()) && valid_in_callee && got.is_some() && got == callee_val;
-                    let (kind, why) = match want {
-                        Ok(_) => ("expected-set", String::new()),
-                        Err(Unknown::RuleFails) => ("expected-unknown", " (its rule fails)".to_string()),
+                    let callee_val = cpu.callee.iter().find(|r| r.0 == *reg).map(|r| r.1);
+                    let valid_in_callee = valid_names.as_ref().map_or(true, |v| v.contains(reg));
+                    let forwarded = cpu.callee_saved.contains(reg) && valid_in_callee && got.is_some() && got == callee_val;
+                    // a rule written under the other spelling of its register (`r11:` for fp) is told apart
+                    let alias = label != reg;
+                    let a = if alias { "alias-label:" } else { "" };
+                    let wider = |v: &u64| format!(" (its rule evaluates to {v:#x}, wider than the register: it cannot be set from its rule)");
+                    // the register-width and label-spelling outcomes come from CPU-independent code (CfiStackWalker):
+                    // one signature for all CPUs
+                    let (sig, why) = match want {
+                        Ok(_) => (format!("{w}:caller-register:{a}expected-set"), String::new()),
+                        // a register of the unwinder's forwarding table that keeps the callee's value although its
+                        // rule, written under the alias spelling, failed or produced an unrepresentable value
+                        Err(u) if alias && forwarded => (
+                            "walk_stack.cfi:caller-register:alias-label:failed-rule:forwarded-callee-value-kept".to_string(),
+                            match u {
+                                Unknown::RuleFails => " (its rule fails)".to_string(),
+                                Unknown::TooWide(v) => wider(v),
+                            },
+                        ),
+                        Err(Unknown::RuleFails) => (format!("{w}:caller-register:{a}expected-unknown"), " (its rule fails)".to_string()),
                         // a register of the unwinder's forwarding table that keeps the callee's value although
                         // its rule produced another (unrepresentable) one is told apart from the general case
-                        Err(Unknown::TooWide(v)) if forwarded => ("value-wider-than-register:forwarded-callee-value-kept", format!(" (its rule evaluates to {v:#x}, wider than the register: it cannot be set from its rule)")),
-                        Err(Unknown::TooWide(v)) => ("value-wider-than-register:expected-unknown", format!(" (its rule evaluates to {v:#x}, wider than the register: it cannot be set from its rule)")),
+                        Err(Unknown::TooWide(v)) if forwarded => ("walk_stack.cfi:caller-register:value-wider-than-register:forwarded-callee-value-kept".to_string(), wider(v)),
+                        Err(Unknown::TooWide(v)) => (format!("walk_stack.cfi:caller-register:{a}value-wider-than-register:expected-unknown"), wider(v)),
                     };
-                    // the register-width outcomes come from CPU-independent code (CfiStackWalker): one signature for all CPUs
-                    let sig = if kind.starts_with("value-wider") { format!("walk_stack.cfi:caller-register:{kind}") } else { format!("{w}:caller-register:{kind}") };
-                    l.violation(sig, format!("{cname}: caller {n} = {got:x?}, reference {:x?}{why}", want.ok()), detail());
+                    let spelled = if alias { format!(" (rule label `{label}:`)") } else { String::new() };
+                    l.violation(sig, format!("{cname}: caller {reg}{spelled} = {got:x?}, reference {:x?}{why}", want.ok()), detail());
                 }
             }
             CfiExpect::Fail(why) => {
@@ -710,7 +777,7 @@ fn main() {
         let mut def = CheckDef::new(
             "C06",
             "exploration",
-            "bounded-exhaustive differential: (expr) every token sequence of length 0..=L over the 26-token alphabet (and, beyond L, every WELL-FORMED — stack never underflows, one value left — expression of exactly L+1 tokens over the full alphabet and of L+2 tokens over a reduced value alphabet) hosted in the .cfa rule, the .ra rule and a general-register rule of a one-record symbol file, each evaluated by the real parser + SymbolFile::walk_frame through a mock FrameWalker on 4 register files (+ the unreadable-memory image when memory is used) and compared (Some/None, cfa, ra, final set/cleared/untouched state of every caller register) with the reference interpreter vh::refcfi; (structure) every INIT rule list (1-2 fragments, or base + 0-1) x two delta records (the first in the file 0..=D fragments, the second 0..=1) x 5 address layouts (file order reversed, at the range bounds, below the INIT start, at the range end) with neighbour records before and after, looked up at 10 addresses + below the module base on 2 register files; (<cpu>-walk_stack, cpu in amd64 | x86 | arm) 10^3 register rule choices (per register: no rule, saved on the stack, .undef, computed from another register, unknown register name, and five register-width rules: `4 .cfa -`, `.cfa 4294967296 +`, `4294967296`, `4294967295`, `.cfa 4294967296 + 4294967296 -`) for two callee-saved registers and one caller-saved register x 2 cfa x 2 ra rules (both fit the register) x 4 callee validity sets through the real walk_stack with a real CONTEXT_AMD64 / CONTEXT_X86 / CONTEXT_ARM and register-sized stack words; the 64-bit reference is projected on the register width: a register rule whose value does not fit the register leaves that register unknown in the caller frame and changes nothing else. distinct_nontrivial = distinct (host, register file, memory image, reference outcome incl. values) for expr; distinct (rule lines in effect, register file) for structure; distinct (validity, reference outcome) for the walk.",
+            "bounded-exhaustive differential: (expr) every token sequence of length 0..=L over the 26-token alphabet (and, beyond L, every WELL-FORMED — stack never underflows, one value left — expression of exactly L+1 tokens over the full alphabet and of L+2 tokens over a reduced value alphabet) hosted in the .cfa rule, the .ra rule and a general-register rule of a one-record symbol file, each evaluated by the real parser + SymbolFile::walk_frame through a mock FrameWalker on 4 register files (+ the unreadable-memory image when memory is used) and compared (Some/None, cfa, ra, final set/cleared/untouched state of every caller register) with the reference interpreter vh::refcfi; (structure) every INIT rule list (1-2 fragments, or base + 0-1) x two delta records (the first in the file 0..=D fragments, the second 0..=1) x 5 address layouts (file order reversed, at the range bounds, below the INIT start, at the range end) with neighbour records before and after, looked up at 10 addresses + below the module base on 2 register files; (<cpu>-walk_stack, cpu in amd64 | x86 | arm) 10^3 register rule choices (per register: no rule, saved on the stack, .undef, computed from another register, unknown register name, and five register-width rules: `4 .cfa -`, `.cfa 4294967296 +`, `4294967296`, `4294967295`, `.cfa 4294967296 + 4294967296 -`) for two callee-saved registers and one caller-saved register x 2 cfa x 2 ra rules (both fit the register) x 4 callee validity sets through the real walk_stack with a real CONTEXT_AMD64 / CONTEXT_X86 / CONTEXT_ARM and register-sized stack words; the 64-bit reference is projected on the register width: a register rule whose value does not fit the register leaves that register unknown in the caller frame and changes nothing else; (arm-alias-walk_stack with CONTEXT_ARM, arm64-walk_stack with CONTEXT_ARM64: label spellings) rules for the frame pointer (callee-saved; labels `fp:` | `r11:` on ARM, `fp:` | `x29:` on ARM64), one callee-saved register with a single name (r4 / x19) and the link register (never forwarded; `lr:` | `r14:` on ARM, `lr:` | `x30:` on ARM64): per register no rule, or one of 6 rules (saved on the stack, .undef, computed from another register, `4294967296`, `4294967295`, and `4 .cfa -` on ARM / an unknown register name on ARM64) under each spelling of its label — 13 x 7 x 13 choices — x 2 cfa x 2 ra rules x 4 callee validity sets; a record never carries two spellings of one register; same oracle, the caller register is read by its canonical name: whatever the spelling of the label, a rule that evaluates to a representable value sets the register and a rule that fails or whose value is not representable leaves it unknown. distinct_nontrivial = distinct (host, register file, memory image, reference outcome incl. values) for expr; distinct (rule lines in effect, register file) for structure; distinct (validity, reference outcome per label as spelled) for the walk.",
         );
         def.assumptions = vec![
             "the reference is written from the module documentation of walker.rs and the property statement; '@' truncates the lhs to a multiple of the rhs, which must be a power of two; zero is not a power of two".into(),
@@ -719,7 +786,8 @@ fn main() {
             "delta records with equal addresses are run only when the two lines assign disjoint registers (which line wins for one register is undocumented); carve-out: tokens with '$' inside a word, labels that alias one register under two names (x29/fp: HashMap order, F10, belongs to C13) are not in the alphabet".into(),
             "a rule for a register name the walker does not know has no observable effect (the walker rejects the name); the final state of such names is not compared".into(),
             "literals outside i64 and '.ra' in EXPR position are not values of the language: the rule fails".into(),
-            "walk_stack (amd64, x86, arm): only the stack pointer, the instruction pointer and registers that have a rule are compared, each by validity and value in the caller frame (which registers are forwarded implicitly is the unwinder's ABI table, not part of this property)".into(),
+            "walk_stack label spellings: r11 = fp, r14 = lr on ARM and x29 = fp, x30 = lr on ARM64 are two names of one register (CpuContext::memoize_register / register_is_valid in minidump/src/context.rs; the numeric names are what Breakpad's dump_syms writes). r13/r15 (sp/pc) labels would collide with .cfa/.ra and are not in the menu; callee validity sets use the canonical names; alias spellings in EXPR position are not enumerated. ARM64 strips pointer-authentication bits (above bit 47 here) from the caller's fp/lr/pc, which the property does not describe: every fp/lr value of the ARM64 menu is below 2^47 (asserted)".into(),
+            "walk_stack (amd64, x86, arm, arm64): only the stack pointer, the instruction pointer and registers that have a rule are compared, each by validity and value in the caller frame (which registers are forwarded implicitly is the unwinder's ABI table, not part of this property)".into(),
             "walk_stack on 32-bit CPUs: rules are evaluated in 64-bit wrapping arithmetic on every CPU (property statement); a register is 'set from its rule' only if the value is representable in the register, otherwise it is unknown in the caller like after any other rule failure — also when the unwinder would have forwarded the callee's value had there been no rule. Memory reads are register-sized. The .cfa/.ra rules of the menu always fit (what a non-representable cfa/ra does is not compared)".into(),
         ];
         def.extra.insert("expression_length_bound".into(), json!(maxlen));
@@ -748,6 +816,19 @@ fn main() {
                 let n = total.counters.get(&format!("walk_register_rules_with_value_wider_than_register[{}]", cpu.name)).copied().unwrap_or(0);
                 if n == 0 {
                     machinery(format!("{} walk_stack: no register rule produced a value wider than the register", cpu.name));
+                }
+            }
+            // every spelling class of the label spaces must be populated
+            for cpu in WALK_CPUS.iter().filter(|c| c.regs.iter().any(|labels| labels.len() > 1)) {
+                let mut classes = vec!["set", "rule-fails"];
+                if cpu.w == 4 {
+                    classes.push("value-wider-than-register");
+                }
+                for class in classes {
+                    let n = total.counters.get(&format!("walk_rules_under_an_alias_label[{}][{class}]", cpu.name)).copied().unwrap_or(0);
+                    if n == 0 {
+                        machinery(format!("{} walk_stack: no rule under an alias label with reference outcome '{class}'", cpu.name));
+                    }
                 }
             }
             let some: u64 = total.outcomes.iter().filter(|(k, _)| k.contains(": Some")).map(|(_, v)| *v).sum();
